@@ -205,48 +205,71 @@ pub struct ExecOutcome {
     pub calls: u32,
 }
 
-fn expected_params_from_ast(w: &Workload) -> (BTreeMap<usize, (String, BTreeMap<String, FieldValue>)>, BTreeSet<usize>) {
-    fn go(
-        w: &Workload,
-        n: &QNode,
-        in_fold: bool,
-        out: &mut BTreeMap<usize, (String, BTreeMap<String, FieldValue>)>,
-        fold_vids: &mut BTreeSet<usize>,
-    ) {
+#[derive(Default)]
+pub struct AstInfo {
+    pub edge_params: BTreeMap<usize, (String, BTreeMap<String, FieldValue>)>,
+    pub fold_vids: BTreeSet<usize>,
+    /// (vid, property) pairs carrying a `>=` filter with a tag operand (known finding A1 shim).
+    pub ge_tag_props: BTreeSet<(usize, String)>,
+    /// (from vid, edge type name, implicit coercion type name) of recursive edges.
+    pub recursion_coercions: BTreeSet<(usize, String, String)>,
+}
+
+fn ast_info(w: &Workload) -> AstInfo {
+    fn go(w: &Workload, n: &QNode, in_fold: bool, info: &mut AstInfo) {
         if in_fold {
-            fold_vids.insert(n.vid);
+            info.fold_vids.insert(n.vid);
         }
         for it in &n.items {
-            if let QItem::Edge(e) = it {
-                let mut eff = BTreeMap::new();
-                if let Some(def) = w.world.schema.edge(n.eff_ty(), &e.name) {
-                    for p in &def.params {
-                        let v = match e.params.get(&p.name) {
-                            Some(v) => v.clone(),
-                            None => p.default.clone().unwrap_or(FieldValue::Null),
-                        };
-                        eff.insert(p.name.clone(), v);
+            match it {
+                QItem::Prop(p) => {
+                    for f in &p.filters {
+                        if f.op == crate::val::Op::Ge && matches!(f.operand, crate::qast::Operand::Tag(_)) {
+                            info.ge_tag_props.insert((n.vid, p.name.clone()));
+                        }
                     }
                 }
-                out.insert(e.node.vid, (e.name.clone(), eff));
-                let child_in_fold = in_fold || matches!(e.kind, EdgeKind::Fold(_));
-                go(w, &e.node, child_in_fold, out, fold_vids);
+                QItem::Edge(e) => {
+                    let mut eff = BTreeMap::new();
+                    if let Some(def) = w.world.schema.edge(n.eff_ty(), &e.name) {
+                        for p in &def.params {
+                            let v = match e.params.get(&p.name) {
+                                Some(v) => v.clone(),
+                                None => p.default.clone().unwrap_or(FieldValue::Null),
+                            };
+                            eff.insert(p.name.clone(), v);
+                        }
+                        if matches!(e.kind, EdgeKind::Recurse(_)) {
+                            if let Ok(Some(x)) = w.world.schema.recurse_rule(n.eff_ty(), def) {
+                                info.recursion_coercions.insert((
+                                    n.vid,
+                                    w.world.schema.types[def.target].name.clone(),
+                                    w.world.schema.types[x].name.clone(),
+                                ));
+                            }
+                        }
+                    }
+                    info.edge_params.insert(e.node.vid, (e.name.clone(), eff));
+                    let child_in_fold = in_fold || matches!(e.kind, EdgeKind::Fold(_));
+                    go(w, &e.node, child_in_fold, info);
+                }
             }
         }
     }
-    let mut out = BTreeMap::new();
-    let mut fv = BTreeSet::new();
-    go(w, &w.q.root, false, &mut out, &mut fv);
-    (out, fv)
+    let mut info = AstInfo::default();
+    go(w, &w.q.root, false, &mut info);
+    info
 }
 
 pub fn make_sim(w: &Workload, cfg: SchedCfg, sched: Tape, record: bool, event_cap: u64) -> Rc<RefCell<Sim>> {
     let mut sim = Sim::new(w.world.clone(), sched, cfg);
     sim.record = record;
     sim.event_cap = event_cap;
-    let (exp, fold_vids) = expected_params_from_ast(w);
-    sim.expected_edge_params = exp;
-    sim.fold_vids = fold_vids;
+    let info = ast_info(w);
+    sim.expected_edge_params = info.edge_params;
+    sim.fold_vids = info.fold_vids;
+    sim.ge_tag_props = info.ge_tag_props;
+    sim.recursion_coercions = info.recursion_coercions;
     let mut entry_params = BTreeMap::new();
     if let Some(ep) = w.world.schema.entry_point(&w.q.entry) {
         for p in &ep.params {
